@@ -543,6 +543,16 @@ func (u *Unit) localAllocs(nodes ...ast.Node) map[types.Object]bool {
 		}
 		return false
 	}
+	// a named slice result starts as nil: a fine starting point for x = append(x, ...) as well
+	if fr := u.top(); fr != nil && len(nodes) == 1 && nodes[0] == ast.Node(fr.body) {
+		for _, rv := range fr.results {
+			if rv.Name() != "" && rv.Name() != "_" {
+				if _, isSlice := rv.Type().Underlying().(*types.Slice); isSlice {
+					cand[rv] = true
+				}
+			}
+		}
+	}
 	for _, n := range nodes {
 		if n == nil {
 			continue
